@@ -105,7 +105,8 @@ impl<T, A: Allocator> Owned<T, A> {
       Kind::Inline(ptr) => unsafe {
         ptr.as_ptr().write(value);
       },
-      Kind::Dangling(_) => {}
+      // a zero sized value occupies no memory, but it is owned by the handle from now on.
+      Kind::Dangling(_) => mem::forget(value),
     }
   }
 
@@ -186,7 +187,14 @@ impl<T, A: Allocator> Drop for Owned<T, A> {
           }
         }
       }
-      Kind::Dangling(_) => {}
+      Kind::Dangling(ptr) => {
+        // a zero sized type may still need to be dropped.
+        if !self.detached && mem::needs_drop::<T>() {
+          unsafe {
+            ptr::drop_in_place(ptr.as_ptr());
+          }
+        }
+      }
     }
   }
 }
@@ -260,7 +268,8 @@ impl<'a, T, A: Allocator> RefMut<'a, T, A> {
       Kind::Inline(ptr) => unsafe {
         ptr.as_ptr().write(value);
       },
-      Kind::Dangling(_) => {}
+      // a zero sized value occupies no memory, but it is owned by the handle from now on.
+      Kind::Dangling(_) => mem::forget(value),
     }
   }
 
@@ -384,7 +393,14 @@ impl<T, A: Allocator> Drop for RefMut<'_, T, A> {
           }
         }
       }
-      Kind::Dangling(_) => {}
+      Kind::Dangling(ptr) => {
+        // a zero sized type may still need to be dropped.
+        if !self.detached && mem::needs_drop::<T>() {
+          unsafe {
+            ptr::drop_in_place(ptr.as_ptr());
+          }
+        }
+      }
     }
   }
 }
